@@ -1474,6 +1474,15 @@ class Interp:
                     raise Unsupported(f"equality of a text and {type(b if getattr(a, 'is_text', False) else a).__name__}")
                 return False
             return text_eq(a, b)
+        for x, y in ((a, b), (b, a)):
+            # a character of a modelled str compared with a str literal: equal exactly when the literal is that one
+            # character -- the individual chr(ord(literal)) of the width model (CPython: str == str by content)
+            if isinstance(x, SOpaque) and x.kind == "Char" and isinstance(y, str):
+                if len(y) != 1:
+                    return False
+                from .text import chr_of
+
+                return x == chr_of(ord(y))
         if isinstance(a, SOpaque) and isinstance(b, SOpaque) and a.kind == b.kind:
             # `==` of two individuals of a kind whose protocol declares its own equality (`py_eq(st, a, b)`: an
             # equivalence that contains identity, e.g. bound methods of the same function and object are equal
@@ -1691,6 +1700,10 @@ class Interp:
             return obj.fields[name]
         if name == "__class__":
             return obj.cls
+        if name == "__dict__":
+            from .seqs import ObjDict
+
+            return ObjDict(obj)  # the instance attributes as a live dict view (pyvc.seqs.ObjDict)
         cls, ref = SRC.mro_lookup(obj.cls, name, "getter")
         if cls is not None and ref is not None and ref.role == "getter":
             return self.call_fnval(st, FnVal(ref, None, obj, cls), [], {})
@@ -1909,19 +1922,30 @@ class Interp:
         return r
 
     def _sym_filter(self, st, e, fr, seq):
-        """`[x for x in seq if pred(x)]` over a sequence of symbolic length, elt == target only.
-        Model of a filter: a subsequence (strictly increasing index map) containing exactly the
+        """`[x for x in seq if pred(x)]` over a sequence of symbolic length, elt == target -- or, for a tuple target
+        of plain names, elt == one of them (`[k for k, v in d.items() if v == c]`: that component of the selected
+        elements).  Model of a filter: a subsequence (strictly increasing index map) containing exactly the
         elements satisfying the predicate, in order. Assumes pred is pure."""
         g = e.generators[0]
-        if not (isinstance(e.elt, ast.Name) and isinstance(g.target, ast.Name) and e.elt.id == g.target.id):
+        tnames = [x.id for x in ast.walk(g.target) if isinstance(x, ast.Name)]
+        # `[x for x in seq if ..]`, and `[k for k, v in seq if ..]`: the element is one of the names the target binds
+        # (a projection of the selected element of seq); anything else is modelled as the argument of sum() only
+        if not (isinstance(e.elt, ast.Name) and e.elt.id in tnames and tnames.count(e.elt.id) == 1
+                and (isinstance(g.target, ast.Name) or (isinstance(e, ast.ListComp) and isinstance(g.target, ast.Tuple) and all(isinstance(x, ast.Name) for x in g.target.elts)))):
+            # (a generator expression over a tuple target keeps the sum() model: `sum(w for w, o in seq if ..)`)
             return self._sym_filter_sum(st, e, fr, seq)
         n = Q.seq_len(seq)
         base = Q.to_sseq(seq)
 
+        def project(x):
+            if isinstance(g.target, ast.Name):
+                return x
+            return x[[t.id for t in g.target.elts].index(e.elt.id)]
+
         def pred(x):
             cfr = Frame(fr.fn, fr.mod, parent=fr)
             cfr.self_obj = fr.self_obj
-            cfr.locals[g.target.id] = x
+            self.assign_target(V.cur(), g.target, x, cfr)
             r = True
             for c in g.ifs:
                 v = self.eval(V.cur(), c, cfr)
@@ -1937,7 +1961,11 @@ class Interp:
         st.assume(V.forall(0, m, lambda j: both(zi(j) >= 0, zi(j) < n, pred(base.get(zi(j))), zp(zi(j)) == j)))
         st.assume(V.forall(0, m - 1, lambda j: zi(j) < zi(j + 1)))
         st.assume(V.forall(0, n, lambda i: V.implies(pred(base.get(i)), both(zp(i) >= 0, zp(i) < m, zi(zp(i)) == i))))
-        r = SSeq(m, lambda j: base.get(zi(j)), base.shape, None, "filter")
+        shape = base.shape
+        if isinstance(g.target, ast.Tuple):
+            k = [t.id for t in g.target.elts].index(e.elt.id)
+            shape = shape.items[k] if isinstance(shape, S.Tup) and len(shape.items) == len(g.target.elts) else None
+        r = SSeq(m, lambda j: project(base.get(zi(j))), shape, None, "filter")
         r.filter_of = (base, zi, zp, pred)
         return r
 
